@@ -121,8 +121,8 @@ theorem rewrite_values_of_qtype_src : rewrite_values_of_qtype = rewrite_values_o
 /-- `NewConstructor` fails for a nil blocking mode and for a negative TTL (`Agd.Filter.ctorOf`). -/
 def ctor_validate_conds_expected : String := "conf.Cloner == nil | err != nil | conf.BlockingMode == nil | conf.FilteredResponseTTL < 0"
 theorem ctor_validate_conds_src : ctor_validate_conds = ctor_validate_conds_expected := rfl
-/-- The custom rules of a profile are cached by its ID and rebuilt when the profile's update time is newer. -/
-def custom_cache_conds_expected : String := "!ok | item.updTime.Before(c.UpdateTime)"
+/-- The custom rules of a profile are cached by its ID and rebuilt when the profile's update time differs (since the C12 repair; it was "is newer"). -/
+def custom_cache_conds_expected : String := "!ok | !item.updTime.Equal(c.UpdateTime)"
 theorem custom_cache_conds_src : custom_cache_conds = custom_cache_conds_expected := rfl
 
 /-- Letter case: `parseRespAnswer` hands the rule lists the *normalised* CNAME target (`Agd.Filter.ansOf`, `normName`; after the `fix:` commit), addresses in `netip`/`net.IP` rendering; the question name is normalised by the same function (`Agd.Driver.C02.host!`). -/
